@@ -368,9 +368,31 @@ def check_floats(ctx: Ctx) -> None:
     res.sig("floats-specials", len(specials))
 
 
+def process_history(ctx: Ctx) -> None:
+    """What happened earlier in the same process must not matter for a conversion: odd shards first instantiate the model BASE classes and
+    a few concrete classes in an unusual order (per-class caches keyed through inheritance, lazily built tables, ... would be seeded wrongly)."""
+    from aioesphomeapi import model as M
+
+    if ctx.shard % 2 == 0:
+        ctx.res.count("process-history/base-classes-untouched-before-conversions")
+        return
+    ctx.res.count("process-history/base-classes-instantiated-first")
+    for name in ("APIModelBase", "EntityInfo", "EntityState", "BluetoothLEAdvertisement"):
+        cls = getattr(M, name, None)
+        if cls is None:
+            continue
+        try:
+            inst = cls()
+            if hasattr(inst, "to_dict"):
+                cls.from_dict(inst.to_dict())
+        except Exception:  # noqa: BLE001  (constructibility of the bases is not the point)
+            pass
+
+
 def shard(ctx: Ctx) -> None:
     res = ctx.res
     rng = ctx.rng
+    process_history(ctx)
     pairs, info = collect_pairs(ctx)
     epairs, unpaired = enum_pairs(pairs)
     conv = Conv()
